@@ -212,8 +212,13 @@ class Analysis:
                         name = "P%d%s" % (L, vp)
                         self.palias.setdefault(name, set()).update(tg.keys())
                     mode = "mem"
-                    imm = (t.get("k") == "ref" and not t.get("mut") and not has_interior_mut(t["to"])) \
-                        or self.region_info.get(name, {}).get("imm", False)
+                    by_type = t.get("k") == "ref" and not t.get("mut") and not has_interior_mut(t["to"])
+                    if vp == "" and len(tg) == 1:
+                        # the region was named elsewhere (points-to target): a shared path to it says
+                        # nothing about its other access paths
+                        imm = self.region_info.get(name, {}).get("imm", False)
+                    else:
+                        imm = by_type or self.region_info.get(name, {}).get("imm", False)
                     t = self._deref_ty(t)
                     chain = ()
                     if name in self.region_info and vp == "" and len(tg) == 1:
